@@ -37,7 +37,7 @@ def cases(tier, seed):
         for prec in ('float32', 'float64'):
             out.append(dict(gen='tmpl', kind=kind, precision=prec, struct='singular', traces='int', sub=core.subseed('C14s', seed, kind, prec), must=True))
             out.append(dict(gen='tmpl', kind=kind, precision=prec, struct='singleton', traces='int', rebuild=True, sub=core.subseed('C14r', seed, kind, prec), must=True))
-            for struct in ('balanced', 'unbalanced', 'singleton'):
+            for struct in ('balanced', 'unbalanced', 'singleton', 'empty'):
                 for traces in ('int', 'float'):
                     out.append(dict(gen='tmpl', kind=kind, precision=prec, struct=struct, traces=traces, sub=core.subseed('C14', seed, k), must=True))
                     k += 1
@@ -45,7 +45,7 @@ def cases(tier, seed):
     n_rand = 220 if tier == 'quick' else 5000
     for j in range(n_rand):
         out.append(dict(gen='tmpl', kind=['tstatic', 'tdpa'][int(rs.integers(2))], precision=['float32', 'float64'][int(rs.integers(2))],
-                        struct=['balanced', 'unbalanced', 'unbalanced', 'singleton'][int(rs.integers(4))], traces=['int', 'float'][int(rs.integers(2))],
+                        struct=['balanced', 'unbalanced', 'unbalanced', 'singleton', 'empty'][int(rs.integers(5))], traces=['int', 'float'][int(rs.integers(2))],
                         sub=int(rs.integers(2 ** 62))))
     return out
 
@@ -77,6 +77,12 @@ def run_case(case):
     elif struct == 'singleton':
         counts[int(rng.integers(K))] = 1
         t.count('singleton_class_cases')
+    elif struct == 'empty':
+        # declared classes without any building trace (e.g. partitions=range(6) with only some values profiled), possibly a singleton too
+        counts[int(rng.integers(K))] = 0
+        if K > 2 and rng.random() < 0.5:
+            counts[int(rng.integers(K))] = int(rng.integers(0, 2))
+        t.count('empty_class_cases')
     cls_idx = np.repeat(np.arange(K), counts)
     means = rng.integers(-30, 31, (K, T)).astype(float)
     offset = 0.0
@@ -189,7 +195,7 @@ def run_case(case):
         ok = bool(np.all(np.abs(templates[i] - m_or[i]) <= 4 * eps * np.abs(m_or[i]) + (1e-300 if case['traces'] == 'int' else 8 * counts[i] * eps * np.abs(bsamples.astype(float)).max())))
         t.check(ok, 'template_is_not_class_mean', lambda: dict(info, class_value=declared[i], class_count=int(counts[i]), got=templates[i].tolist(), expected=m_or[i].tolist()))
     if small:
-        return t.result(sig=f"{kind}|{prec}|{struct}|{K}|{T}|{tdtype}|{build_bs}|{n}", sample=dict(info, judged='class means only (a class has < 2 building traces)'))
+        t.count('pooled_with_single_trace_classes')
     # pooled covariance
     scale = np.abs(bsamples.astype(float)).max() ** 2
     t.count('pooled_matrices')
@@ -197,6 +203,8 @@ def run_case(case):
     t.metric('pooled_ratio', float(np.max(np.abs(pooled - p_or)) / ptol))
     t.check(pooled.shape == (T, T) and bool(np.all(np.abs(pooled - p_or) <= ptol)), 'pooled_covariance_differs',
             lambda: dict(info, got=pooled.tolist()[:2], expected=p_or.tolist()[:2], tol=ptol))
+    if small and np.isnan(m_or).any():
+        return t.result(sig=f"{kind}|{prec}|{struct}|{K}|{T}|{tdtype}|{build_bs}|{n}", sample=dict(info, judged='class means only (a declared class has no building trace)'))
     cond = float(np.linalg.cond(p_or))
     if struct == 'singular':
         # (a') the published inverse is the Moore-Penrose pseudo-inverse of the published matrix (same default cut-off as numpy.linalg.pinv)
